@@ -97,6 +97,13 @@ def run(ctx):
     V.run_model(ctx, "votor_handover", c05.HANDOVER, 7, 7 if ctx.tier == "quick" else 9,
                 relevant=lambda fp, fields: any(f.startswith("msgs") or f in ("panic", "arm") for f in fields),
                 sample=60000 if ctx.tier == "quick" else 600000)
+    # ... and on the pool raising safe-to-notar / safe-to-skip as soon as their conditions hold, whichever vote
+    #     arrives last (a lost safe-to-skip leaves a split slot without fallback votes: no skip certificate, no progress)
+    from . import c06
+    P.run_model(ctx, "pool_s2n", [2, 2, 1], 0, 7,
+                c06.scenarios(["notar", "skip", "sf"], ["notar", "ff"], sibling=["ff", "nf"]),
+                c06.INVS, lambda fp, fields: any(f.startswith("ev.missing.SafeTo") or f == "panic" for f in fields),
+                sample=(90000 if ctx.tier == "quick" else 1000000))
     for i, (fates, waits) in enumerate(c07.QUICK):
         if ctx.tier == "quick" and i not in (1, 3):
             continue
